@@ -41,8 +41,8 @@ SPECS = {
         clauses=["FaultMissed", "SpuriousFault", "RowsMatch", "Accepts", "Compiles", "BookingFault"],
         profiles={"quick": [("MCQueryGen_fault.cfg", None)],
                   "thorough": [("MCQueryGen_fault_t.cfg", None)]},
-        events={"quick": 16, "thorough": 40},
-        cap={"quick": 900, "thorough": 12000},
+        events={"quick": 12, "thorough": 40},
+        cap={"quick": 1500, "thorough": 12000},
     ),
     "C05": pcheck.PSpec(
         "C05",
